@@ -1,8 +1,7 @@
 # -*- coding: utf-8 -*-
 """C05 - load then save preserves a package produced by any application.
 
-proof:          lean/OdfModel/Props/C05.lean (fix_identity, fix_finding_gt_in_value, fix_finding_gt_part_dropped,
-                fix_w1_ok, fix_w2_text_untouched, section_attributes_kept, extras_carried, sections_preserved_partial) about lean/OdfModel/LoadSax.lean (LoadParser, __fixXmlPart, the manifest
+proof:          lean/OdfModel/Props/C05.lean (fix_identity, fix_w1_ok, fix_w2_text_untouched, fix_w4_ok, section_attributes_kept, extras_carried, sections_preserved_partial) about lean/OdfModel/LoadSax.lean (LoadParser, __fixXmlPart, the manifest
                 dispatch of load)
 correspondence: __fixXmlPart on the text of every part of every package (real function vs `fixxml` of drv_load);
                 the SAX event stream of every part (xml.sax + recording handler, after the real __fixXmlPart) fed to
@@ -45,44 +44,8 @@ def roundtrip(raw):
 
 # ------------------------------------------------------------------------------------------- signature predicates
 def fix_analysis(text):
-    """what __fixXmlPart (as of 4cb8050) does wrong to this part, decided from the text alone (independent
-    re-statement with a quote-aware scan of the document element's start tag):
-       None              nothing harmful
-       ('dup', prefix)   the start tag of the document element has a literal '>' inside an attribute value and declares
-                         `prefix` (one of the nine) AFTER it: the declaration is not seen, a second one is inserted"""
-    i = 0; n = len(text)
-    # skip XML declaration, comments, PIs, DOCTYPE in front of the document element
-    while i < n:
-        if text.startswith(u'<?', i):
-            j = text.find(u'?>', i); i = n if j < 0 else j + 2
-        elif text.startswith(u'<!--', i):
-            j = text.find(u'-->', i); i = n if j < 0 else j + 3
-        elif text.startswith(u'<!', i):
-            j = text.find(u'>', i); i = n if j < 0 else j + 1
-        elif text[i] == u'<':
-            break
-        else:
-            i += 1
-    if i >= n:
-        return None
-    # the whole start tag, quotes respected
-    j = i + 1; q = None; first_gt_in_value = None
-    while j < n:
-        ch = text[j]
-        if q:
-            if ch == q: q = None
-            elif ch == u'>' and first_gt_in_value is None: first_gt_in_value = j
-        elif ch in u'"\'':
-            q = ch
-        elif ch == u'>':
-            break
-        j += 1
-    if first_gt_in_value is None:
-        return None
-    after = text[first_gt_in_value:j]
-    for p in REQUESTED:
-        if re.search(u'[ \t\r\n]xmlns:%s[ \t\r\n]*=' % p, after) and not re.search(u'[ \t\r\n]xmlns:%s[ \t\r\n]*=' % p, text[i:first_gt_in_value]):
-            return ('dup', p)
+    """what __fixXmlPart (as of 4cb8050 + 692b8c3) does wrong to this part: no harmful class is known any more (the root
+    start tag is read quote-aware, the test tolerates any white space, the splice goes after the element name)"""
     return None
 
 
